@@ -39,6 +39,9 @@ type progEffects struct {
 	callees map[*ssa.Function][]*ssa.Function
 	// stores through pointers of unknown origin, by the type stored: they can hit a field of that very type only
 	ptrStores map[*ssa.Function][]types.Type
+	// fields whose address is taken for something other than a load or a store (passed on, stored, returned): only
+	// those can be hit by a store through a pointer of unknown origin
+	escaping map[*types.Var]bool
 }
 
 var effectsCache sync.Map // *ssa.Program -> *progEffects
@@ -47,7 +50,7 @@ func effectsOf(prog *ssa.Program, roots []*ssa.Function) *progEffects {
 	if e, ok := effectsCache.Load(prog); ok {
 		return e.(*progEffects)
 	}
-	e := &progEffects{writers: map[*types.Var]map[*ssa.Function]bool{}, opaque: map[*ssa.Function]bool{}, callees: map[*ssa.Function][]*ssa.Function{}, ptrStores: map[*ssa.Function][]types.Type{}}
+	e := &progEffects{writers: map[*types.Var]map[*ssa.Function]bool{}, opaque: map[*ssa.Function]bool{}, callees: map[*ssa.Function][]*ssa.Function{}, ptrStores: map[*ssa.Function][]types.Type{}, escaping: map[*types.Var]bool{}}
 	seen := map[*ssa.Function]bool{}
 	var visit func(fn *ssa.Function)
 	visit = func(fn *ssa.Function) {
@@ -71,6 +74,36 @@ func effectsOf(prog *ssa.Program, roots []*ssa.Function) *progEffects {
 		}
 		for _, b := range fn.Blocks {
 			for _, in := range b.Instrs {
+				if fa, ok := in.(*ssa.FieldAddr); ok && fa.Referrers() != nil {
+					for _, r := range *fa.Referrers() {
+						switch u := r.(type) {
+						case *ssa.UnOp, *ssa.DebugRef:
+						case *ssa.Store:
+							if u.Addr != ssa.Value(fa) {
+								e.escaping[fieldOfAddr(fa)] = true // the address itself is stored
+							}
+						case *ssa.FieldAddr, *ssa.IndexAddr:
+							// an inner field or element of it: its own uses are judged at that instruction; the
+							// outer field escapes if the inner address does (approximated: treat as escaping only
+							// when the inner address is used for more than loads and stores)
+							if iv, ok := r.(ssa.Value); ok && iv.Referrers() != nil {
+								for _, r2 := range *iv.Referrers() {
+									switch u2 := r2.(type) {
+									case *ssa.UnOp, *ssa.DebugRef, *ssa.FieldAddr, *ssa.IndexAddr:
+									case *ssa.Store:
+										if u2.Addr != iv {
+											e.escaping[fieldOfAddr(fa)] = true
+										}
+									default:
+										e.escaping[fieldOfAddr(fa)] = true
+									}
+								}
+							}
+						default:
+							e.escaping[fieldOfAddr(fa)] = true
+						}
+					}
+				}
 				switch x := in.(type) {
 				case *ssa.Store:
 					if fa, ok := x.Addr.(*ssa.FieldAddr); ok {
@@ -151,9 +184,11 @@ func (e *progEffects) mayWrite(fn *ssa.Function, f *types.Var, seen map[*ssa.Fun
 	if e.opaque[fn] || e.writers[f][fn] {
 		return true
 	}
-	for _, t := range e.ptrStores[fn] {
-		if types.Identical(t, f.Type()) {
-			return true
+	if e.escaping[f] {
+		for _, t := range e.ptrStores[fn] {
+			if types.Identical(t, f.Type()) {
+				return true
+			}
 		}
 	}
 	for _, c := range e.callees[fn] {
@@ -229,9 +264,11 @@ func buildGVN(fn *ssa.Function) *gvnInfo {
 			return k
 		}
 		ok := !eff.writers[f][fn] && !eff.opaque[fn]
-		for _, t := range eff.ptrStores[fn] {
-			if types.Identical(t, f.Type()) {
-				ok = false
+		if eff.escaping[f] {
+			for _, t := range eff.ptrStores[fn] {
+				if types.Identical(t, f.Type()) {
+					ok = false
+				}
 			}
 		}
 		if ok {
